@@ -14,6 +14,16 @@ CLAIMED["C19"] = dict(
    note="Trusted: go/types resolution, go/ssa. Secondary build configurations (GOARCH=386, tag appengine) are covered in the thorough tier. Decides the structural part only, not the conversions' numeric behaviour.",
    technique="go/types resolution of every table entry (exhaustive) + SSA shape rules for range/keys/toSlice",
    design="4 C19")
+CLAIMED["C12"] = dict(
+   text="Static decision of the structural skeleton of the dictionary-chain behaviour in package env (closed world, unexported fields): who may write the tables and under which dominating test (dot rule on the written key, set-never-creates, lazy creation only when nil), no table write before an error return, the scope written is the receiver (API contract per exported mutator: self / root / nearest binding), lookup order own table -> external lookup -> parent -> built-ins last and only at the root, copies build fresh maps and DeepCopy recurses over the whole chain, parent links only set on fresh objects (acyclicity), and every may-panic instruction of the API discharged (nil scope pointers incl. comma-ok clobber, indices, assertions). Full functional equivalence with a dictionary model over all call histories is NOT decided.",
+   note="Trusted: go/ssa, dominance-based guards. Receivers assumed non-nil and host-supplied reflect.Values valid. Decides necessary structural conditions, not refinement.",
+   technique="SSA effect/ownership analysis + dominance rules over package env (who-may-write, order, nil-ness)",
+   design="4 C12")
+CLAIMED["C13"] = dict(
+   text="Lockset/typestate analysis over every function of package env: every access to a scope's values/types tables (field load, nil test, len, lookup, range and each range step, update, delete, store, escape) is made under that scope's RWMutex in a sufficient mode; lock/unlock pair on all paths; no re-acquisition of a held scope lock through a callee; check-then-act and two-table snapshots stay inside one critical section. Because the guarded fields are unexported this is complete for data races and self-deadlock on the tables for ALL schedules. Linearizability of operations spanning several scopes is NOT decided.",
+   note="Trusted: go/ssa, sync.RWMutex. externalLookup field is unguarded and outside the listed operations.",
+   technique="lockset / typestate dataflow on SSA (closed-world package)",
+   design="4 C13")
 NOT_YET = "checker for this property is not built yet in this revision (see DESIGN.md section 4 for the planned static rules)"
 ALL = ["C%02d" % i for i in range(1, 21)]
 
